@@ -89,7 +89,7 @@ theorem post_getProperty (n : Nat) {s : VM ν} {a : Nat} (name : String) (hs : H
     · exact post_newNum hs _
     · exact post_newNum hs _
     · exact post_newStr hs _
-    · exact Post.bind (post_mapM_newStr hs t.toList (fun c => String.singleton c))
+    · exact Post.bind (post_mapM_newStr hs (TextOps.chars (textBytes t)) (fun c => bytesText c))
         (fun cs s1 hs1 _ hcs => post_alloc_lt hs1 (c := .arr cs) hcs)
     · exact Post.rtErr _ hs
   | bool b =>
@@ -380,6 +380,33 @@ theorem ro_mapM_str {s : VM ν} (l : List Addr) (h : ∀ v ∈ l, ∃ c, s.heap[
   subst hc'
   exact RO.pure trivial
 
+/-- the texts of validated text arguments, as bytes (格式化) -/
+theorem ro_mapM_strBytes {s : VM ν} (l : List Addr) (h : ∀ v ∈ l, ∃ c, s.heap[v]? = some c ∧ typeMatches c "string" = true) :
+    RO (l.mapM (fun i => (do match ← getCell i with | .str t => pure (textBytes t) | _ => goPanic : M ν (List Nat)))) s (fun _ => True) := by
+  refine RO.weaken (RO.mapM (P := fun _ _ => True) (fun i hi => ?_)) (fun _ _ => trivial)
+  obtain ⟨c, hc, htm⟩ := h i hi
+  obtain ⟨t, rfl⟩ := tm_string htm
+  refine RO.bind (RO.getCell hc) (fun c' hc' => ?_)
+  subst hc'
+  exact RO.pure trivial
+
+/-- `value.ThrowException`: a fresh 异常 value, then an exception signal — an error outcome, the heap has grown by one cell -/
+theorem post_throwException {α : Type} {s : VM ν} {Q : α → VM ν → Prop} (hs : HeapOk s.heap) (msg : String) :
+    Post Pre s Q ((throwException msg : M ν α) s) := by
+  unfold throwException
+  rw [bind_apply, alloc_apply]
+  exact ⟨heapOk_push hs (c := .exc msg) trivial, pre_push _ _⟩
+
+/-- the slice expression `ss[startIdx-1 : endIdx]` of `strExecSlice` is never out of range: for every text and every pair of
+    `Int`s the model of 取样 answers a text or one of its two exceptions -/
+theorem slice_ne_panic (b : List Nat) (i j : Int) : TextOps.slice b i j ≠ .error .panic := by
+  intro h
+  unfold TextOps.slice at h
+  simp only [] at h
+  have hn : (0 : Int) ≤ ((TextOps.runes b).length : Int) := Int.natCast_nonneg _
+  by_cases hi : i < 0 <;> by_cases hj : j < 0 <;> simp only [hi, hj, if_true, if_false] at h <;>
+    (repeat' split at h) <;> first | (cases h; done) | omega
+
 theorem mem_assocErase {β} {k : String} {p : String × β} : ∀ {l : List (String × β)}, p ∈ assocErase k l → p ∈ l
   | [], h => by simp [assocErase] at h
   | (k', v') :: rest, h => by
@@ -626,8 +653,62 @@ theorem post_builtinMethod (n : Nat) {s : VM ν} {a : Nat} (name : String) (vals
         refine RO.post_bind hs (RO.getCell hcv) (fun c' hc' => ?_)
         subst hc'
         exact (post_newBool hs _).ofPre
-    iterate 8
-      · exact Post.notModelled hs
+    -- 替换
+    · refine RO.post_bind hs (ro_validateExact _ hv) (fun _ hval => ?_)
+      obtain ⟨p, q, rfl, ⟨cp, hcp, htp⟩, ⟨cq, hcq, htq⟩⟩ := exact2 hval
+      obtain ⟨o, rfl⟩ := tm_string htp
+      obtain ⟨nw, rfl⟩ := tm_string htq
+      dsimp only
+      refine RO.post_bind hs (RO.getCell hcp) (fun c1 hc1 => ?_)
+      subst hc1
+      refine RO.post_bind hs (RO.getCell hcq) (fun c2 hc2 => ?_)
+      subst hc2
+      exact (post_newStr hs _).ofPre
+    -- 分隔
+    · refine RO.post_bind hs (ro_validateExact _ hv) (fun _ hval => ?_)
+      obtain ⟨v, rfl, ⟨cv, hcv, htm⟩⟩ := exact1 hval
+      obtain ⟨y, rfl⟩ := tm_string htm
+      dsimp only
+      refine RO.post_bind hs (RO.getCell hcv) (fun c' hc' => ?_)
+      subst hc'
+      exact (Post.bind (post_mapM_newStr hs (TextOps.split (textBytes t) (textBytes y)) (fun c => bytesText c))
+        (fun cs s1 hs1 _ hcs => post_alloc_lt hs1 (c := .arr cs) hcs)).ofPre
+    -- 取样
+    · refine RO.post_bind hs (ro_validateExact _ hv) (fun _ hval => ?_)
+      obtain ⟨p, q, rfl, ⟨cp, hcp, htp⟩, ⟨cq, hcq, htq⟩⟩ := exact2 hval
+      obtain ⟨pv, rfl⟩ := tm_number htp
+      obtain ⟨qv, rfl⟩ := tm_number htq
+      dsimp only
+      refine RO.post_bind hs (RO.getCell hcp) (fun c1 hc1 => ?_)
+      subst hc1
+      refine RO.post_bind hs (RO.getCell hcq) (fun c2 hc2 => ?_)
+      subst hc2
+      dsimp only
+      cases hsl : TextOps.slice (textBytes t) (NumOps.toInt pv) (NumOps.toInt qv) with
+      | ok r => exact (post_newStr hs _).ofPre
+      | error e =>
+        cases e with
+        | startIndex => exact (post_throwException hs _).ofPre
+        | endIndex => exact (post_throwException hs _).ofPre
+        | panic => exact absurd hsl (slice_ne_panic _ _ _)
+    -- 去除空格
+    · exact (post_newStr hs _).ofPre
+    -- 转小写-英文 转大写-英文
+    · cases TextOps.toLower (textBytes t) with
+      | some r => exact (post_newStr hs _).ofPre
+      | none => exact Post.notModelled hs
+    · cases TextOps.toUpper (textBytes t) with
+      | some r => exact (post_newStr hs _).ofPre
+      | none => exact Post.notModelled hs
+    -- 格式化
+    · refine RO.post_bind hs (ro_validateAll "string" hv) (fun _ hvals => ?_)
+      exact RO.post_bind hs (ro_mapM_strBytes vals hvals) (fun ss _ => (post_newStr hs _).ofPre)
+    -- 转换数值: the receiver is overwritten by a text, then a number, an exception, or not modelled
+    · refine Post.bind (post_setCell' hs hc (by rintro ⟨_, _, _, _, h⟩; cases h) (c := .str _) trivial) (fun _ s2 hs2 e2 _ => ?_)
+      cases TextOps.atofClass (TextOps.atoiRewrite (textBytes t)) with
+      | number => exact (post_newNum hs2 _).ofPre
+      | syntaxErr => exact (post_throwException hs2 _).ofPre
+      | special => exact Post.notModelled hs2
     · exact Post.rtErr _ hs
   | bool _ => exact Post.rtErr _ hs
   | null => exact Post.rtErr _ hs
